@@ -206,6 +206,7 @@ def apply_form(s, form, pattern, rng=None):
     """-> (is_active list, pins) realising `pattern` in the given operand form."""
     act, pins = [], []
     side_t = None
+    shared = {}
     for k, p in enumerate(pattern):
         f = form
         if form == "mixed":
@@ -229,9 +230,15 @@ def apply_form(s, form, pattern, rng=None):
                 pins.append(side_t)
             v = s.bool_var()
             t = side_t
-            shape = rng.randrange(9) if rng else k % 9
+            shape = rng.randrange(11) if rng else k % 11
+            if shape >= 9 and not shared:
+                # ONE guard object used by several flags of the same call (`guard = a & b; flags = [guard & v0, guard & v1, ...]`)
+                t2 = s.bool_var()
+                pins.append(t2)
+                shared["and"] = t & t2
+                shared["or"] = ~t | ~t2
             e = [lambda: (v & t) | (v & ~t), lambda: v & t, lambda: t & v, lambda: v | ~t, lambda: ~(~v), lambda: v == t, lambda: v ^ ~t,
-                 lambda: t.then(v), lambda: ~(t ^ v)][shape]()
+                 lambda: t.then(v), lambda: ~(t ^ v), lambda: shared["and"] & v, lambda: shared["or"] | v][shape]()
             act.append(e)
             pins.append(v if p else ~v)
     return act, pins
